@@ -303,6 +303,12 @@ def gen_cases(ctx):
                         if w == "export_split" or (not ctx.thorough and w in ("export_pdf", "serialize") and a in ("Y", "yes")):
                             continue
                         yield {"kind": "fn", "writer": w, "pk": pk, "exists": ex, "confirm": cf, "answer": a}
+    # answers that are not exactly 'y' but look like consent (padded, "all", carriage return): declined, for existing str targets
+    for w in FN_WRITERS:
+        if w == "export_split":
+            continue
+        for a in (" y", "y ", "y\r", "\ty", "a", "A", "all", "yy", "y\n", "Yes"):
+            yield {"kind": "fn", "writer": w, "pk": "str", "exists": 1, "confirm": 1, "answer": a}
     # L7/L10: the same target under other spellings / awkward names; L1/L2: a second call meets the writer's own output
     for w in FN_WRITERS:
         if w == "export_split":
@@ -332,7 +338,7 @@ def gen_cases(ctx):
             for ans in itertools.product(("y", "N"), repeat=sum(exists)):
                 order = list(range(k))
                 r.shuffle(order)
-                answers = [a if a == "y" else r.choice(["n", "", "Y", "yes"]) for a in ans]
+                answers = [a if a == "y" else r.choice(["n", "", "Y", "yes", "a", "all", " y"]) for a in ans]     # ("a": no sticky consent)
                 yield {"kind": "cli-combo", "combo": cid, "exists": list(exists), "answers": answers, "order": order, "no_warnings": 0}
         yield {"kind": "cli-combo", "combo": cid, "exists": [1] * k, "answers": ["n"], "order": list(range(k))[::-1], "no_warnings": 1}
     # split export through the function: patterns of existing files x answer sequences
